@@ -208,6 +208,165 @@ def channels_of(arr, layout, nseg):
     return np.stack([(arr == s + 1) for s in range(nseg)], axis=-1).astype(np.int64)
 
 
+# ---------------------------------------------------------------------------------------------- generator dimensions (guide 3a)
+LAYOUTS = ['C', 'C', 'F', 'transposed', 'strided', 'negstride', 'readonly']
+
+
+def relayout(arr, how):
+    """An array equal to `arr` with another memory layout."""
+    arr = np.asarray(arr)
+    if how == 'C':
+        return np.ascontiguousarray(arr).copy()
+    if how == 'F':
+        return np.asfortranarray(arr).copy(order='F')
+    if how == 'transposed':
+        rev = tuple(reversed(range(arr.ndim)))
+        return np.ascontiguousarray(arr.transpose(rev)).transpose(rev)
+    if how == 'strided':
+        big = np.zeros(tuple(2 * d for d in arr.shape), arr.dtype)
+        sl = tuple(slice(None, None, 2) for _ in arr.shape)
+        big[sl] = arr
+        return big[sl]
+    if how == 'negstride':
+        sl = tuple(slice(None, None, -1) for _ in arr.shape)
+        return np.ascontiguousarray(arr[sl])[sl]
+    if how == 'readonly':
+        a = arr.copy()
+        a.flags.writeable = False
+        return a
+    raise ValueError(how)
+
+
+def spell_type(r, seg_type):
+    """String or enum member."""
+    import highdicom as hd
+    if r.random() < 0.4:
+        return hd.seg.SegmentationTypeValues(seg_type), 'enum'
+    return seg_type, 'str'
+
+
+def spell_request(r, req):
+    """ints as numpy ints, bool as numpy bool (accepted spellings of the same request)."""
+    how = r.choice(['int', 'int', 'np.int64', 'np.int32', 'np.uint8', 'np.bool_'])
+    if how == 'int':
+        return dict(req), how
+    out = {}
+    for k, v in req.items():
+        if isinstance(v, bool):
+            out[k] = np.bool_(v) if how == 'np.bool_' else v
+        elif isinstance(v, int):
+            if how == 'np.uint8':
+                out[k] = np.uint8(v) if 0 <= v < 256 else np.int16(v)
+            elif how == 'np.bool_':
+                out[k] = v
+            else:
+                out[k] = (np.int64 if how == 'np.int64' else np.int32)(v)
+        else:
+            out[k] = v
+    return out, how
+
+
+def reread(obj, entry):
+    """The object after a bytes round trip (dcmwrite -> dcmread with pydicom defaults) through a parsing entry point."""
+    import io as _io
+    import highdicom as hd
+    import pydicom
+    from gen.images import to_bytes
+    blob = to_bytes(obj)
+    if entry == 'segread':
+        return hd.seg.segread(_io.BytesIO(blob))
+    if entry == 'Segmentation.from_dataset':
+        return hd.seg.Segmentation.from_dataset(pydicom.dcmread(_io.BytesIO(blob)), copy=False)
+    if entry == 'imread':
+        return hd.imread(_io.BytesIO(blob))
+    if entry == 'Image.from_dataset':
+        return hd.Image.from_dataset(pydicom.dcmread(_io.BytesIO(blob)), copy=False)
+    if entry == 'imread-lazy':
+        return hd.imread(_io.BytesIO(blob), lazy_frame_retrieval=True)
+    raise ValueError(entry)
+
+
+def _snapshot(obj):
+    import hashlib
+    h = hashlib.sha1()
+    for kw in ('PixelData', 'NumberOfFrames', 'Rows', 'Columns'):
+        if kw in obj:
+            v = obj.get(kw)
+            h.update(bytes(v) if isinstance(v, (bytes, bytearray)) else str(v).encode())
+    for kw in ('PerFrameFunctionalGroupsSequence', 'SharedFunctionalGroupsSequence'):
+        if kw in obj:
+            h.update(str(obj[kw]).encode())
+    return h.hexdigest()
+
+
+def same_volume(a, b):
+    return (a.array.shape == b.array.shape and np.array_equal(a.array, b.array) and np.array_equal(a.affine, b.affine))
+
+
+def repeated_reads(ctx, descr, obj, get_volume, kw, first, r, site):
+    """Several calls on ONE object: the same read again, after a refused call, after the cached pixel array was
+    populated, after a read with other options; nothing may change and the object must stay untouched."""
+    snap = _snapshot(obj)
+    steps = ['again', 'after-refused', 'after-pixel_array', 'after-other-options']
+    r.shuffle(steps)
+    for step in steps:
+        if step == 'after-refused':
+            _fetch(get_volume, slice_start=0, **kw)                       # 0 is no one-based number
+            _fetch(get_volume, row_start=10 ** 6, **kw)
+        elif step == 'after-pixel_array':
+            _fetch(lambda: obj.pixel_array)
+        elif step == 'after-other-options':
+            _fetch(get_volume, slice_start=0, as_indices=True, row_end=-1 if first.spatial_shape[1] > 1 else None, **kw)
+            if 'combine_segments' in kw:
+                _fetch(get_volume)
+        st, v = _fetch(get_volume, **kw)
+        ctx.case(stream=descr['stream'] + '/repeat', repeat=step, outcome='ok' if st == 'ok' else 'refused')
+        if st != 'ok':
+            ctx.fail(dict(descr, repeat=step), f'read that worked before is refused {step}: {v}', site=site + '/repeat')
+        elif not same_volume(first, v):
+            ctx.fail(dict(descr, repeat=step), f'the same read returns another volume {step}', site=site + '/repeat')
+    if _snapshot(obj) != snap:
+        ctx.fail(descr, 'reading volumes modified the object (PixelData / functional groups changed)', site=site + '/repeat')
+
+
+SEG_ENTRIES = ['segread', 'Segmentation.from_dataset', 'imread', 'Image.from_dataset']
+
+
+def roundtrip_seg_checks(ctx, descr, seg, rv, planes_lab, planes_cha, overlap, rowcos, colcos, ps, exact, seg_type, geom_ref, site):
+    """The same segmentation after a bytes round trip through one parsing entry point: positions, pixels and the reported
+    geometry must be what the in-memory object gave."""
+    entry = rv.choice(SEG_ENTRIES)
+    st, obj = _fetch(reread, seg, entry)
+    ctx.case(stream=descr['stream'] + '/reread', entry=entry, outcome='ok' if st == 'ok' else 'refused')
+    if st != 'ok':
+        ctx.fail(dict(descr, entry=entry), f'written segmentation cannot be read back: {obj}', site=site + '/reread')
+        return
+    if entry in ('segread', 'Segmentation.from_dataset'):
+        label, kw, planes = ('channels', dict(), planes_cha) if overlap else ('combined', dict(combine_segments=True), planes_lab)
+        stv, v = _fetch(obj.get_volume, **kw)
+        if stv != 'ok':
+            ctx.fail(dict(descr, entry=entry, read=label), f'get_volume refused after the round trip: {v}', site=site + '/reread')
+            return
+        out = np.asarray(v.array)
+        if seg_type == 'FRACTIONAL':
+            out = np.rint(out.astype(np.float64)).astype(np.int64)
+        for b in positional_oracle(out, v.affine, planes, rowcos, colcos, ps, exact, label + '@' + entry)[:3]:
+            ctx.fail(dict(descr, entry=entry, read=label), b, site=site + '/reread/position')
+        stg, geom = _fetch(obj.get_volume_geometry)
+    else:
+        # parsed as a plain image (parent class): the geometry it reports must be the segmentation's
+        stg, geom = _fetch(obj.get_volume_geometry, allow_missing_positions=True)
+    if geom_ref is not None:
+        if stg != 'ok' or geom is None:
+            ctx.fail(dict(descr, entry=entry), f'get_volume_geometry failed after the round trip: {geom}', site=site + '/reread')
+        elif tuple(geom.spatial_shape) != tuple(geom_ref.spatial_shape) or not (
+                np.array_equal(geom.affine, geom_ref.affine) if exact
+                else np.allclose(geom.affine, geom_ref.affine, rtol=0, atol=1e-9)):   # file write rounds DS values to 16 characters
+            ctx.fail(dict(descr, entry=entry), {'what': 'geometry reported after the round trip differs from the in-memory object',
+                                                'after': geom.affine.tolist(), 'before': geom_ref.affine.tolist()},
+                     site=site + '/reread/geometry')
+
+
 # ---------------------------------------------------------------------------------------------- positional oracle
 def positional_oracle(out_array, out_affine, planes, rowcos, colcos, ps, exact, what):
     """planes: list of (position [3 Fractions], 2-D or 3-D int array).  out_array (n,R,C[,S]).
@@ -363,14 +522,22 @@ def build_vol_case(ctx, idx):
     src = ct_series(1, shape[1], shape[2])
     a = affine_of(g)
     chan = {'SegmentNumber': list(range(1, nseg + 1))} if layout == 'chan' else None
-    vol = hd.Volume(arr.copy(), a, coordinate_system='PATIENT', frame_of_reference_uid=src[0].FrameOfReferenceUID,
-                    channels=chan)
+    rv = ctx.rng('volvar', idx)
+    mem = rv.choice(LAYOUTS)
+    passed = relayout(arr, mem)
+    cs = rv.choice(['PATIENT', hd.CoordinateSystemNames.PATIENT])
+    vol = hd.Volume(passed, a, coordinate_system=cs, frame_of_reference_uid=src[0].FrameOfReferenceUID, channels=chan)
+    typ, typ_spell = spell_type(rv, seg_type)
     descr = {'stream': 'vol', 'idx': idx, 'seed': ctx.seed, 'dir': g['label'], 'h': g['h'], 'exact': g['exact'],
              'shape': list(shape), 'spacing': [rstr(x) for x in g['s']], 'position': [rstr(x) for x in g['p']],
              'type': seg_type, 'nseg': nseg, 'layout': layout, 'omit': omit, 'empties': mode,
-             'empty_planes': sorted(empties)}
-    mk = lambda: hd.seg.Segmentation(src, vol, seg_type, [seg_description(i + 1) for i in range(nseg)],  # noqa: E731
-                                     omit_empty_frames=omit, **_seg_kw())
+             'empty_planes': sorted(empties), 'memory': mem, 'type_spelling': typ_spell}
+
+    def mk():
+        seg = hd.seg.Segmentation(src, vol, typ, [seg_description(i + 1) for i in range(nseg)], omit_empty_frames=omit, **_seg_kw())
+        if not np.array_equal(passed, arr):
+            raise AssertionError('the constructor modified the array of the volume it was given')
+        return seg
     return descr, g, arr, mk
 
 
@@ -467,7 +634,7 @@ def _guard(ctx, descr, fn, *a):
 
 
 def run_vol(ctx, reqs, pending):
-    n_cases = ctx.n(400, 6000)
+    n_cases = ctx.n(400, 4000)
     for idx in range(n_cases):
         descr, g, arr, mk = build_vol_case(ctx, idx)
         _guard(ctx, descr, check_vol_case, ctx, descr, g, arr, mk, reqs, pending)
@@ -479,7 +646,8 @@ def check_vol_case(ctx, descr, g, arr, mk, reqs, pending):
     nseg, layout, seg_type, exact = descr['nseg'], descr['layout'], descr['type'], descr['exact']
     st, seg = _fetch(mk)
     hkey = dict(stream='vol', type=seg_type, omit=descr['omit'], empties=descr['empties'], handed=descr['h'],
-                exact=exact, layout=layout, n0=shape[0])
+                exact=exact, layout=layout, n0=shape[0], memory=descr.get('memory'), type_spelling=descr.get('type_spelling'),
+                square=shape[1] == shape[2])
     if st != 'ok':
         ctx.case(outcome='construct-refused', **hkey)
         ctx.fail(descr, f'admissible volume refused by the constructor: {seg}', site='Segmentation.__init__')
@@ -562,11 +730,19 @@ def check_vol_case(ctx, descr, g, arr, mk, reqs, pending):
             add_pending(ctx, reqs, pending, model_read_req([p for p, _ in frames], iop, psx, sbs, shape[1], shape[2]),
                         dict(descr, read=label, what='get_volume affine/shape/placement', layer='L0'), impl_volume_obs(stv, v),
                         assemble_check(seg, frames, v.array, seg_type) if label == 'combined' else None)
+    # ---- several reads on the one object, and the object after a bytes round trip
+    rv = ctx.rng('volvar2', descr['idx'])
+    if full is not None:
+        repeated_reads(ctx, descr, seg, seg.get_volume, full_kw, full, rv, 'get_volume')
+    roundtrip_seg_checks(ctx, descr, seg, rv, planes_lab, planes_cha, overlap, rowcos, colcos, ps, exact, seg_type, geom, 'get_volume')
     # ---- sub-volumes of this object
     if full is not None:
         for j in range(3):
-            req = rand_request(r, full.spatial_shape)
+            req0 = rand_request(r, full.spatial_shape)
+            req, spelled = spell_request(rv, req0)
+            ctx.hist('request_spelling', spelled)
             stv, sub, exp = check_subvolume(ctx, descr, seg.get_volume, full, req, exact, kw=full_kw)
+            req = req0
             valid = all(e is not None for e in exp)
             ctx.case(nontrivial_key=('volsub', tuple(full.spatial_shape), tuple(sorted(req.items()))) if (valid and stv == 'ok') else None,
                      stream='vol/sub', request_valid=valid, outcome='ok' if stv == 'ok' else 'refused',
@@ -602,7 +778,23 @@ def build_src_case(ctx, idx):
     ori = [float(x) for x in rowcos + colcos]
     kw = dict(orientation=ori, origin=[float(x) for x in origin], pixel_spacing=[float(x) for x in ps],
               slice_spacing=float(ss), order=order)
-    if kind == 'series':
+    mult = list(order)                       # multiple of the slice spacing at which source i lies
+    rg = ctx.rng('srcgap', idx)
+    gaps = kind == 'series' and n >= 2 and rg.random() < 0.25
+    if gaps:
+        # an irregular source stack: a longer regular series from which planes were lost
+        extra = rg.randint(1, 3)
+        full_order = list(range(n + extra))
+        if omode == 'desc':
+            full_order.reverse()
+        elif omode == 'shuffled':
+            rg.shuffle(full_order)
+        drop = set(rg.sample(range(n + extra), extra))
+        kw['order'] = full_order
+        src = [ds for i, ds in enumerate(ct_series(n + extra, rows, cols, **kw)) if i not in drop]
+        mult = [m for i, m in enumerate(full_order) if i not in drop]
+        positions = [[fr(x) for x in ds.ImagePositionPatient] for ds in src]
+    elif kind == 'series':
         src = ct_series(n, rows, cols, **kw)
         positions = [[fr(x) for x in ds.ImagePositionPatient] for ds in src]
     else:
@@ -618,14 +810,23 @@ def build_src_case(ctx, idx):
     descr = {'stream': 'src', 'idx': idx, 'seed': ctx.seed, 'dir': label, 'exact': exact, 'kind': kind, 'n': n,
              'rows': rows, 'cols': cols, 'order': order, 'order_mode': omode, 'type': seg_type, 'nseg': nseg, 'layout': layout,
              'omit': omit, 'empties': mode, 'empty_planes': sorted(empties), 'pixel_spacing': [rstr(x) for x in ps],
-             'slice_spacing': rstr(ss), 'origin': [rstr(x) for x in origin]}
-    mk = lambda: hd.seg.Segmentation(src, arr.copy(), seg_type, [seg_description(i + 1) for i in range(nseg)],  # noqa: E731
-                                     omit_empty_frames=omit, **_seg_kw())
+             'slice_spacing': rstr(ss), 'origin': [rstr(x) for x in origin], 'gaps': gaps, 'multiples': mult}
+    rv = ctx.rng('srcvar', idx)
+    mem = rv.choice(LAYOUTS)
+    passed = relayout(arr, mem)
+    typ, typ_spell = spell_type(rv, seg_type)
+    descr.update(memory=mem, type_spelling=typ_spell)
+
+    def mk():
+        seg = hd.seg.Segmentation(src, passed, typ, [seg_description(i + 1) for i in range(nseg)], omit_empty_frames=omit, **_seg_kw())
+        if not np.array_equal(passed, arr):
+            raise AssertionError('the constructor modified the pixel array it was given')
+        return seg
     return descr, (rowcos, colcos, ps, positions), arr, mk, src
 
 
 def run_src(ctx, reqs, pending):
-    for idx in range(ctx.n(300, 4000)):
+    for idx in range(ctx.n(300, 2500)):
         descr, geo, arr, mk, src = build_src_case(ctx, idx)
         _guard(ctx, descr, check_src_case, ctx, descr, geo, arr, mk, src, reqs, pending)
 
@@ -635,7 +836,8 @@ def check_src_case(ctx, descr, geo, arr, mk, src, reqs, pending):
     exact, nseg, layout, seg_type = descr['exact'], descr['nseg'], descr['layout'], descr['type']
     r = ctx.rng('srcreq', descr['idx'])
     hkey = dict(stream='src', type=seg_type, omit=descr['omit'], empties=descr['empties'], exact=exact, layout=layout,
-                n0=descr['n'], order=descr['order_mode'], source=descr['kind'])
+                n0=descr['n'], order=descr['order_mode'], source=descr['kind'], gaps=descr.get('gaps', False),
+                memory=descr.get('memory'), type_spelling=descr.get('type_spelling'), square=descr['rows'] == descr['cols'])
     st, seg = _fetch(mk)
     if st != 'ok':
         ctx.case(outcome='construct-refused', **hkey)
@@ -657,9 +859,15 @@ def check_src_case(ctx, descr, geo, arr, mk, src, reqs, pending):
                              'want': sorted([[float(x) for x in p] for p in want_pos])}, site='stored-positions')
         if iop != rowcos + colcos or psx != list(ps):
             ctx.fail(descr, 'stored orientation / pixel spacing differ from the source images', site='stored-measures')
-        if descr['n'] > 1 and sbs != abs(F(descr['slice_spacing'])):
-            ctx.fail(descr, {'what': 'SpacingBetweenSlices recorded for a regular source stack is not its spacing',
-                             'stored': None if sbs is None else float(sbs)}, site='stored-measures')
+        ms = sorted(descr.get('multiples', range(descr['n'])))
+        steps = {b - a for a, b in zip(ms, ms[1:])}
+        want_sbs = (abs(F(descr['slice_spacing'])) * steps.pop() if len(steps) == 1 else None) if descr['n'] > 1 else F(1)
+        if descr['kind'] == 'multiframe':
+            want_sbs = abs(F(descr['slice_spacing']))
+        if sbs != want_sbs:
+            ctx.fail(descr, {'what': 'SpacingBetweenSlices recorded is not the spacing of the source stack (none for an irregular one)',
+                             'stored': None if sbs is None else float(sbs), 'want': None if want_sbs is None else float(want_sbs)},
+                     site='stored-measures')
         # L1 against the model: recorded positions / orientation / spacing incl. the inferred slice spacing
         src_hint = abs(F(descr['slice_spacing'])) if descr['kind'] == 'multiframe' else None
         add_pending(ctx, reqs, pending,
@@ -669,9 +877,17 @@ def check_src_case(ctx, descr, geo, arr, mk, src, reqs, pending):
                     dict(descr, what='stored positions/orientation/measures (aligned)', layer='L1'),
                     ('ok', {'pos': [[rstr(x) for x in p] for p in sorted(stored_pos)], 'iop': [rstr(x) for x in iop],
                             'ps': [rstr(x) for x in psx], 'sbs': rstr(sbs) if sbs is not None else None}))
+    # stored planes that do not sit at whole multiples of their smallest gap are no volume: refusal is right then
+    may_refuse = False
+    if sbs is None and descr.get('gaps'):
+        em = sorted({descr['multiples'][k] for k in included})
+        if len(em) > 1:
+            gmin = min(b - a for a, b in zip(em, em[1:]))
+            may_refuse = any((e - em[0]) % gmin for e in em)
     stg, geom = _fetch(seg.get_volume_geometry)
     if stg != 'ok' or geom is None:
-        ctx.fail(descr, f'get_volume_geometry failed: {geom}', site='get_volume_geometry')
+        if not may_refuse:
+            ctx.fail(descr, f'get_volume_geometry failed: {geom}', site='get_volume_geometry')
         geom = None
     full = None
     for label, kw, cmp_ in (('combined', dict(combine_segments=True), 'lab'), ('channels', dict(), 'cha')):
@@ -680,10 +896,14 @@ def check_src_case(ctx, descr, geo, arr, mk, src, reqs, pending):
         stv, v = _fetch(seg.get_volume, **kw)
         ctx.case(sample=descr if ctx.evaluations % 211 == 0 else None,
                  nontrivial_key=('src', descr['dir'], descr['n'], descr['rows'], descr['cols'], seg_type, descr['omit'],
-                                 descr['empties'], descr['order_mode'], descr['kind'], label) if (stv == 'ok' and nonempty) else None,
-                 read=label, outcome='ok' if stv == 'ok' else 'refused', **hkey)
+                                 descr['empties'], descr['order_mode'], descr['kind'], label, descr.get('gaps')) if (stv == 'ok' and nonempty) else None,
+                 read=label, outcome='ok' if stv == 'ok' else ('refused-irregular' if may_refuse else 'refused'), **hkey)
         if stv != 'ok':
-            ctx.fail(dict(descr, read=label), f'get_volume refused: {v}', site='get_volume')
+            if not may_refuse:
+                ctx.fail(dict(descr, read=label), f'get_volume refused: {v}', site='get_volume')
+            elif exact and full is None and label == 'combined':
+                add_pending(ctx, reqs, pending, model_read_req([p for p, _ in frames], iop, psx, sbs, descr['rows'], descr['cols']),
+                            dict(descr, read=label, what='get_volume affine/shape/placement', layer='L0'), impl_volume_obs(stv, v))
             continue
         out = np.asarray(v.array)
         if seg_type == 'FRACTIONAL':
@@ -701,10 +921,20 @@ def check_src_case(ctx, descr, geo, arr, mk, src, reqs, pending):
                 add_pending(ctx, reqs, pending, model_read_req([p for p, _ in frames], iop, psx, sbs, descr['rows'], descr['cols']),
                             dict(descr, read=label, what='get_volume affine/shape/placement', layer='L0'), impl_volume_obs(stv, v),
                             assemble_check(seg, frames, v.array, seg_type) if label == 'combined' else None)
+    rv = ctx.rng('srcvar2', descr['idx'])
+    if full is not None:
+        repeated_reads(ctx, descr, seg, seg.get_volume, full_kw, full, rv, 'get_volume')
+    if not may_refuse:
+        roundtrip_seg_checks(ctx, descr, seg, rv, [(positions[k], lab[k]) for k in range(descr['n'])],
+                             [(positions[k], cha[k]) for k in range(descr['n'])], overlap, rowcos, colcos, ps, exact, seg_type,
+                             geom, 'get_volume')
     if full is not None:
         for j in range(2):
-            req = rand_request(r, full.spatial_shape)
+            req0 = rand_request(r, full.spatial_shape)
+            req, spelled = spell_request(rv, req0)
+            ctx.hist('request_spelling', spelled)
             stv, sub, exp = check_subvolume(ctx, descr, seg.get_volume, full, req, exact, kw=full_kw)
+            req = req0
             valid = all(e is not None for e in exp)
             ctx.case(nontrivial_key=('srcsub', tuple(full.spatial_shape), tuple(sorted(req.items()))) if (valid and stv == 'ok') else None,
                      stream='src/sub', request_valid=valid, outcome='ok' if stv == 'ok' else 'refused', as_indices=req['as_indices'])
@@ -757,14 +987,23 @@ def build_img_case(ctx, idx):
             pos = [[fr(x) for x in f.PlanePositionSequence[0].ImagePositionPatient] for f in ds.PerFrameFunctionalGroupsSequence]
         pixels = np.frombuffer(ds.PixelData, dtype=np.uint16)[:n * rows * cols].reshape(n, rows, cols)
         planes = [(pos[i], pixels[i]) for i in range(n)]
-        descr.update(n=n, rows=rows, cols=cols, order=order, slice_spacing=rstr(ss))
+        # variants of the recorded slice spacing: a single frame that carries one, a multi-frame image that carries none
+        rv = ctx.rng('imgvar', idx)
+        hint = abs(ss) if kind == 'multiframe' else None
+        if kind == 'single' and rv.random() < 0.5:
+            hint = r.choice(SPACINGS)
+            ds.SpacingBetweenSlices = float(hint)
+        elif kind == 'multiframe' and rv.random() < 0.3:
+            del ds.SharedFunctionalGroupsSequence[0].PixelMeasuresSequence[0].SpacingBetweenSlices
+            hint = None
+        descr.update(n=n, rows=rows, cols=cols, order=order, slice_spacing=rstr(ss), hint=None if hint is None else rstr(hint))
         shape = (n, rows, cols)
     mk = lambda: hd.Image.from_dataset(ds, copy=False)  # noqa: E731
     return descr, (rowcos, colcos, ps, planes), shape, mk
 
 
 def run_img(ctx, reqs, pending):
-    for idx in range(ctx.n(250, 3000)):
+    for idx in range(ctx.n(250, 2000)):
         descr, geo, shape, mk = build_img_case(ctx, idx)
         _guard(ctx, descr, check_img_case, ctx, descr, geo, shape, mk, reqs, pending)
 
@@ -801,12 +1040,30 @@ def check_img_case(ctx, descr, geo, shape, mk, reqs, pending):
             reqs.append(model_tiled_req(planes[0][0], rowcos + colcos, ps, None, shape[1], shape[2], None, kind='image'))
         else:
             reqs.append(model_read_req([p for p, _ in planes], rowcos + colcos, ps,
-                                       abs(F(descr['slice_spacing'])) if descr['kind'] == 'multiframe' else None, shape[1], shape[2],
+                                       None if descr.get('hint') is None else F(descr['hint']), shape[1], shape[2],
                                        allow_missing=False, kind='image'))
         pending.append((dict(descr, what='Image.get_volume affine/shape', layer='L0'), impl_volume_obs(stv, v)))
+    # several reads on the one image; the image after a bytes round trip through every parsing entry point
+    rv = ctx.rng('imgvar2', descr['idx'])
+    repeated_reads(ctx, descr, im, im.get_volume, kw, v, rv, 'Image.get_volume')
+    entry = rv.choice(['imread', 'Image.from_dataset', 'imread-lazy'])
+    st2, im2 = _fetch(reread, im, entry)
+    ctx.case(stream='img/reread', entry=entry, outcome='ok' if st2 == 'ok' else 'refused')
+    if st2 != 'ok':
+        ctx.fail(dict(descr, entry=entry), f'written image cannot be read back: {im2}', site='Image.get_volume/reread')
+    else:
+        st3, v2 = _fetch(im2.get_volume, **kw)
+        if st3 != 'ok':
+            ctx.fail(dict(descr, entry=entry), f'get_volume refused after the round trip: {v2}', site='Image.get_volume/reread')
+        elif not (np.array_equal(v2.array, v.array) and (np.array_equal(v2.affine, v.affine) if exact
+                                                           else np.allclose(v2.affine, v.affine, rtol=0, atol=1e-9))):
+            ctx.fail(dict(descr, entry=entry), 'volume after the round trip differs from the in-memory one', site='Image.get_volume/reread')
     for j in range(3):
-        req = rand_request(r, v.spatial_shape)
+        req0 = rand_request(r, v.spatial_shape)
+        req, spelled = spell_request(rv, req0)
+        ctx.hist('request_spelling', spelled)
         sts, sub, exp = check_subvolume(ctx, descr, im.get_volume, v, req, exact, kw=kw, site='Image.get_volume', empty_rc_free=tiled)
+        req = req0
         valid = all(e is not None for e in exp)
         ctx.case(nontrivial_key=('imgsub', descr['kind'], tuple(v.spatial_shape), tuple(sorted(req.items()))) if (valid and sts == 'ok') else None,
                  stream='img/sub', request_valid=valid, outcome='ok' if sts == 'ok' else 'refused', as_indices=req['as_indices'],
@@ -816,7 +1073,7 @@ def check_img_case(ctx, descr, geo, shape, mk, reqs, pending):
                 reqs.append(model_tiled_req(planes[0][0], rowcos + colcos, ps, None, shape[1], shape[2], req, kind='image'))
             else:
                 reqs.append(model_read_req([p for p, _ in planes], rowcos + colcos, ps,
-                                           abs(F(descr['slice_spacing'])) if descr['kind'] == 'multiframe' else None,
+                                           None if descr.get('hint') is None else F(descr['hint']),
                                            shape[1], shape[2], req, allow_missing=False, kind='image'))
             pending.append((dict(descr, request=req, what='Image.get_volume(sub) affine/shape', layer='L0'), impl_volume_obs(sts, sub)))
 
@@ -839,6 +1096,11 @@ def build_tiled_case(ctx, idx):
     nr = ctx.np_rng('tiledpix', idx)
     total_r, total_c = r.randint(1, 9), r.randint(1, 9)
     tr, tc = r.randint(1, 4), r.randint(1, 4)
+    rv = ctx.rng('tiledvar', idx)
+    if rv.random() < 0.35:                      # boundary: exactly one row / column left over for the last tile
+        total_r = tr * rv.randint(1, 3) + 1
+    if rv.random() < 0.35:
+        total_c = tc * rv.randint(1, 3) + 1
     src_ps = (r.choice(SPACINGS), r.choice(SPACINGS))
     src_origin = [F(r.randint(-400, 400), 8), F(r.randint(-400, 400), 8), F(0)]
     sd, _, _ = rand_direction(r, 0)
@@ -856,25 +1118,42 @@ def build_tiled_case(ctx, idx):
         mask[0, r.randrange(total_r), r.randrange(total_c)] = 1
     descr = {'stream': 'tiled', 'idx': idx, 'seed': ctx.seed, 'total': [total_r, total_c], 'tile': [tr, tc], 'type': seg_type,
              'nseg': nseg, 'from_volume': from_volume, 'tiled_full': tiled_full, 'omit': omit}
-    kw = dict(tile_pixel_array=True, tile_size=(tr, tc), omit_empty_frames=omit,
-              dimension_organization_type='TILED_FULL' if tiled_full else 'TILED_SPARSE')
+    dot_name = 'TILED_FULL' if tiled_full else 'TILED_SPARSE'
+    # (an ndarray tile_size is refused by `tile_size or (...)`; the argument is documented as a tuple: not drawn)
+    spell = rv.choice(['tuple/str', 'list/enum', 'npint/str', 'npint/enum'])
+    tile_size = {'tuple/str': (tr, tc), 'list/enum': [tr, tc], 'npint/str': (np.int32(tr), np.int64(tc)),
+                 'npint/enum': (np.int64(tr), np.int32(tc))}[spell]
+    dot = hd.DimensionOrganizationTypeValues(dot_name) if spell.endswith('enum') else dot_name
+    mem = rv.choice(LAYOUTS)
+    seg_type_sp, typ_spell = spell_type(rv, seg_type)
+    descr.update(memory=mem, option_spelling=spell, type_spelling=typ_spell,
+                 remainder=[total_r % tr, total_c % tc])
+    kw = dict(tile_pixel_array=True, tile_size=tile_size, omit_empty_frames=omit, dimension_organization_type=dot)
+    passed = relayout(mask, mem)
     if from_volume:
         g = rand_geom(r, 0.1)
         descr.update(dir=g['label'], h=g['h'], exact=g['exact'], spacing=[rstr(x) for x in g['s']], position=[rstr(x) for x in g['p']],
                      directions=[[rstr(x) for x in _col(g['d'], j)] for j in range(3)])
-        vol = hd.Volume(mask.copy(), affine_of(g), coordinate_system='SLIDE', frame_of_reference_uid=src.FrameOfReferenceUID)
+        vol = hd.Volume(passed, affine_of(g), coordinate_system=rv.choice(['SLIDE', hd.CoordinateSystemNames.SLIDE]),
+                        frame_of_reference_uid=src.FrameOfReferenceUID)
         a = frac_affine(affine_of(g))
         geo = (_col(g['d'], 2), _col(g['d'], 1), (g['s'][1], g['s'][2]), [(apply_aff(a, (0, 0, 0)), mask[0].astype(np.int64))])
-        mk = lambda: hd.seg.Segmentation([src], vol, seg_type, [seg_description(i + 1) for i in range(nseg)], **kw, **_seg_kw())  # noqa: E731
+        mk0 = lambda: hd.seg.Segmentation([src], vol, seg_type_sp, [seg_description(i + 1) for i in range(nseg)], **kw, **_seg_kw())  # noqa: E731
     else:
         descr.update(dir='src', exact=True, h=0)
         geo = (_col(sd, 2), _col(sd, 1), src_ps, [(src_origin, mask[0].astype(np.int64))])
-        mk = lambda: hd.seg.Segmentation([src], mask.copy(), seg_type, [seg_description(i + 1) for i in range(nseg)], **kw, **_seg_kw())  # noqa: E731
+        mk0 = lambda: hd.seg.Segmentation([src], passed, seg_type_sp, [seg_description(i + 1) for i in range(nseg)], **kw, **_seg_kw())  # noqa: E731
+
+    def mk():
+        seg = mk0()
+        if not np.array_equal(passed, mask):
+            raise AssertionError('the constructor modified the mask it was given')
+        return seg
     return descr, geo, mask, mk
 
 
 def run_tiled(ctx, reqs, pending):
-    for idx in range(ctx.n(250, 3000)):
+    for idx in range(ctx.n(250, 2000)):
         descr, geo, mask, mk = build_tiled_case(ctx, idx)
         _guard(ctx, descr, check_tiled_case, ctx, descr, geo, mask, mk, reqs, pending)
 
@@ -884,7 +1163,8 @@ def check_tiled_case(ctx, descr, geo, mask, mk, reqs, pending):
     exact = descr['exact']
     r = ctx.rng('tiledreq', descr['idx'])
     hkey = dict(stream='tiled', type=descr['type'], from_volume=descr['from_volume'], tiled_full=descr['tiled_full'],
-                omit=descr['omit'], exact=exact)
+                omit=descr['omit'], exact=exact, memory=descr.get('memory'), option_spelling=descr.get('option_spelling'),
+                tile_square=descr['tile'][0] == descr['tile'][1], remainder=str(descr.get('remainder')))
     st, seg = _fetch(mk)
     if st != 'ok':
         ctx.case(outcome='construct-refused', **hkey)
@@ -929,9 +1209,23 @@ def check_tiled_case(ctx, descr, geo, mask, mk, reqs, pending):
             pending.append((dict(descr, what='stored total-pixel-matrix origin/orientation/measures', layer='L1'),
                             ('ok', {'origin': [rstr(x) for x in origin], 'ios': [rstr(x) for x in ios], 'ps': [rstr(x) for x in psx],
                                     'sbs': None if sbs is None else rstr(sbs)})))
+    rv = ctx.rng('tiledvar2', descr['idx'])
+    repeated_reads(ctx, descr, seg, seg.get_volume, kw, v, rv, 'get_volume/tiled')
+    roundtrip_seg_checks(ctx, descr, seg, rv, planes, planes, False, rowcos, colcos, ps, exact, descr['type'],
+                         geom if stg == 'ok' else None, 'get_volume/tiled')
     for j in range(3):
-        req = rand_request(r, v.spatial_shape)
+        req0 = rand_request(r, v.spatial_shape)
+        if rv.random() < 0.3:                   # boundary: the last row / column alone, the last tile row / column
+            req0 = {'as_indices': req0['as_indices']}
+            last_r, last_c = v.spatial_shape[1], v.spatial_shape[2]
+            if req0['as_indices']:
+                req0.update(row_start=rv.choice([last_r - 1, -1]), column_start=rv.choice([last_c - 1, -1]))
+            else:
+                req0.update(row_start=rv.choice([last_r, -1]), column_start=rv.choice([last_c, -1]))
+        req, spelled = spell_request(rv, req0)
+        ctx.hist('request_spelling', spelled)
         sts, sub, exp = check_subvolume(ctx, descr, seg.get_volume, v, req, exact, kw=kw, site='get_volume/tiled', empty_rc_free=True)
+        req = req0
         valid = all(e is not None for e in exp)
         ctx.case(nontrivial_key=('tiledsub', tuple(v.spatial_shape), tuple(sorted(req.items()))) if (valid and sts == 'ok') else None,
                  stream='tiled/sub', request_valid=valid, outcome='ok' if sts == 'ok' else 'refused', as_indices=req['as_indices'])
@@ -967,11 +1261,20 @@ def build_pyr_case(ctx, idx):
     kw = dict(series_instance_uid=hd.UID(), series_number=2, manufacturer='m', manufacturer_model_name='mm',
               software_versions='1', device_serial_number='1')
     descs = [seg_description(i + 1) for i in range(nseg)]
+    rv = ctx.rng('pyrvar', idx)
+    mem = rv.choice(LAYOUTS)
+    typ, typ_spell = spell_type(rv, seg_type)
+    descr.update(memory=mem, type_spelling=typ_spell)
     if mode == 'factors':
         fs = sorted({r.choice([1.5, 2.0, 2.0, 2.5, 3.0, 4.0, 4.0, 5.0]) for _ in range(r.randint(1, 3))})
         fs = [f for f in fs if int(rows / f) >= 1 and int(cols / f) >= 1]
         descr['factors'] = fs
-        mk = lambda: hd.seg.create_segmentation_pyramid([src], [shape_it(base)], seg_type, descs, downsample_factors=fs, **kw)  # noqa: E731
+        fsp = rv.choice(['list', 'tuple', 'ndarray', 'ints'])
+        fs_passed = {'list': list(fs), 'tuple': tuple(fs), 'ndarray': np.array(fs),
+                     'ints': [int(f) if float(f).is_integer() else f for f in fs]}[fsp]
+        descr['factor_spelling'] = fsp
+        passed = relayout(shape_it(base), mem)
+        mk = lambda: hd.seg.create_segmentation_pyramid([src], [passed], typ, descs, downsample_factors=fs_passed, **kw)  # noqa: E731
     else:
         sizes = [(rows, cols)]
         for _ in range(r.randint(1, 2)):
@@ -983,12 +1286,13 @@ def build_pyr_case(ctx, idx):
         arrs = [shape_it(base[:a, :b].copy()) for a, b in sizes]
         for a_ in arrs:
             a_.flat[0] = 1
-        mk = lambda: hd.seg.create_segmentation_pyramid([src], arrs, seg_type, descs, **kw)  # noqa: E731
+        arrs = [relayout(a_, mem) for a_ in arrs]
+        mk = lambda: hd.seg.create_segmentation_pyramid([src], arrs, typ, descs, **kw)  # noqa: E731
     return descr, ps, mk
 
 
 def run_pyr(ctx, reqs, pending):
-    for idx in range(ctx.n(60, 800)):
+    for idx in range(ctx.n(60, 600)):
         descr, ps, mk = build_pyr_case(ctx, idx)
         _guard(ctx, descr, check_pyr_case, ctx, descr, ps, mk, reqs, pending)
 
@@ -997,7 +1301,8 @@ def check_pyr_case(ctx, descr, ps, mk, reqs, pending):
     if descr['mode'] == 'factors' and not descr['factors']:
         return
     st, segs = _fetch(mk)
-    hkey = dict(stream='pyr', rank=descr['rank'], mode=descr['mode'], type=descr['type'])
+    hkey = dict(stream='pyr', rank=descr['rank'], mode=descr['mode'], type=descr['type'], memory=descr.get('memory'),
+                factor_spelling=descr.get('factor_spelling'), square=descr['rows'] == descr['cols'])
     if st != 'ok':
         ctx.case(outcome='construct-refused', **hkey)
         ctx.fail(descr, f'pyramid refused: {segs}', site='create_segmentation_pyramid')
